@@ -319,6 +319,17 @@ def judge(sp, cfg, res, want=None):
 
     # ---- C16: order of siblings --------------------------------------------------------------
     sign = -1 if it.sort_rev else 1
+    alive = set()
+
+    def mark(e):
+        if e.model is not None:
+            alive.add(id(e.model))
+        for c in e.children:
+            mark(c)
+
+    for e in eroots:
+        mark(e)
+    TG.ALIVE = alive
     for e, p in mapping:
         if not e.children or getattr(e, "ordered", False):
             continue
@@ -365,6 +376,7 @@ def judge(sp, cfg, res, want=None):
                 if c > 0:
                     add("C16", "siblings_out_of_order" + same_position_suffix(ea.model, eb.model), "top level: '%s' is shown before '%s'" % (pa.name, pb.name))
 
+    TG.ALIVE = None
     # ---- C17: each printed row vs. the value its body received -----------------------------------
     if it.action in ("test", "bench"):
         rows = []
